@@ -5,7 +5,9 @@ from sa.model import AnalysisError, Unknown, norm, unwrap, EnumMember
 from sa.query import Facts, call_name, find_calls, try_fold, calls_in, defs_of
 from sa.prov import Prov
 from sa.layout import Layout
-from .common import dongle_classes, send_sites, firmware
+from .common import dongle_classes, send_sites, firmware, fold_local, answer_field
+from sa.canon import fold_consts
+from sa.decide import Walker, completions
 from .c06 import _strip
 
 TECHNIQUE = ("literal agreement of the message template and EIP-191 prefix with the firmware headers, "
@@ -93,11 +95,19 @@ def run(run):
              "hex_or_decimal_string_to_int, then checked); SignerAuthorization validates every signature by DER "
              "deserialisation on construction and on add_signature; from_jsonfile requires a dict with version == 1.")
     g = A.cfg(ini, SV)
+    hp, ip = ini.params[1], ini.params[2]
+    locs_i = set(PV.defs(ini, SV)) | set(ini.params)
+
+    def folded(x, fn_=ini, cls_=SV, locs=locs_i):
+        try:
+            return _strip(norm(fold_consts(P, ast.parse(x, mode="eval").body, fn_, cls_, locals_=locs)))
+        except SyntaxError:
+            return x
+    wanted = ((f"is_hex_string_of_length({hp}, 32)", "32-byte hex hash"), (f"type({ip}) == int", "int iteration"),
+              (f"{ip} >= 0", "iteration >= 0"), (f"{ip} < 65536", "iteration < 2^16"))
     for sn in [x for n in its for x in g.nodes_of(n)]:
-        facts = {f.text() for f in F.local(ini, SV, sn)}
-        hp, ip = ini.params[1], ini.params[2]
-        for w, what in ((f"is_hex_string_of_length({hp}, 32)", "32-byte hex hash"), (f"type({ip}) == int", "int iteration"),
-                        (f"{ip} >= 0", "iteration >= 0"), (f"{ip} < 2 ** 16", "iteration < 2^16")):
+        facts = {folded(t) for t in F.expanded(ini, SV, sn, PV, stop=(ip, hp))}
+        for w, what in wanted:
             run.check("R2", w in facts, f"stored only with {what}", key=f"SignerVersion.__init__|{what}", where=ini.loc(),
                       message=f"SignerVersion can be constructed without `{w}` holding for the stored value: the tool would "
                               "build and sign a message the device can never accept (and to_bytes(2) fails later)")
@@ -110,15 +120,40 @@ def run(run):
         run.check("R2", f"type({ini.params[2]}) == str" in facts, "conversion only for strings", key="SignerVersion.__init__|conversion-guard",
                   where=ini.loc(), message="the string conversion is applied to non-strings")
     # bounds are checked *after* the conversion on every path: the bound conditions are not skipped on the string path
-    bnd = [n for n in g.nodes if n.kind == "cond" and norm(n.ast) in (f"type({ini.params[2]}) != int", f"{ini.params[2]} < 0",
-                                                                       f"{ini.params[2]} >= 2 ** 16")]
+    from sa.query import make_facts
+    bnd = {}
+    for n in g.nodes:
+        if n.kind != "cond":
+            continue
+        ts = {folded(f.text()) for pol in ("T", "F") for f in make_facts(pol, n.ast, ini, n)}
+        for w, what in wanted[1:]:
+            if w in ts:
+                bnd.setdefault(w, []).append(n)
     for cn in [x for n in conv for x in g.nodes_of(n)]:
         for sn in [x for n in its for x in g.nodes_of(n)]:
-            for b in bnd:
-                run.check("R2", g.all_paths_pass(cn, sn, {b}), f"converted iteration still passes `{norm(b.ast)}`",
-                          key=f"SignerVersion.__init__|converted-skips|{norm(b.ast)}", where=ini.loc(b.ast),
-                          message=f"an iteration given as a string skips the check `{norm(b.ast)}` (e.g. '65536', '0x10000', '-1' accepted)")
+            for w, bs in bnd.items():
+                run.check("R2", g.all_paths_pass(cn, sn, set(bs)), f"converted iteration still passes `{w}`",
+                          key=f"SignerVersion.__init__|converted-skips|{w}", where=ini.loc(bs[0].ast),
+                          message=f"an iteration given as a string skips the check `{w}` (e.g. '65536', '0x10000', '-1' accepted)")
     run.floor("R2", "iteration bound conditions", len(bnd), 3)
+    # the string parser itself: 0x-prefixed -> base 16, anything else -> base 10
+    hd = P.func("comm.utils.hex_or_decimal_string_to_int")
+    vp = hd.params[0]
+
+    def hatom(e):
+        if isinstance(e, ast.Call) and call_name(e) == "startswith" and norm(e.func.value) == vp and len(e.args) == 1 \
+                and isinstance(e.args[0], ast.Constant) and e.args[0].value == "0x":
+            return ("HEX", True)
+        return None
+    table = {}
+    for lf in Walker(A, hd, None, hatom).walk(A.cfg(hd, None).entry):
+        if lf.kind == "return" and lf.node.ast.value is not None:
+            for v in completions({k: b for k, b in lf.pc.items() if k == "HEX"}, ["HEX"]):
+                table.setdefault(v["HEX"], set()).add(_strip(norm(lf.deep(lf.node.ast.value))))
+    run.check("R2", table == {True: {f"int({vp}, 16)"}, False: {f"int({vp}, 10)"}}, "string iterations: 0x.. base 16, otherwise base 10",
+              key="hex_or_decimal_string_to_int|table", where=hd.loc(),
+              message=f"hex_or_decimal_string_to_int computes {({k: sorted(v) for k, v in table.items()})}; expected int(v, 16) for a 0x prefix and int(v, 10) "
+                      "otherwise (other bases or leniency change which iteration strings are accepted)")
     av = P.method(SA, "_assert_signature_valid")
     des = [n for n in A.own_nodes(av) if isinstance(n, ast.Call) and call_name(n) == "ecdsa_deserialize"]
     run.check("R2", len(des) == 1 and norm(des[0].args[0]) == f"bytes.fromhex({av.params[1]})", "signatures DER-parsed",
@@ -187,33 +222,39 @@ def run(run):
     loops = [n for n in ast.walk(au.node) if isinstance(n, ast.For)]
     run.check("R3", len(loops) == 1 and norm(loops[0].iter) == f"{p}.signatures", "signatures sent in file order",
               key="authorize_signer|order", where=au.loc(), message=f"signatures are iterated as `{norm(loops[0].iter) if loops else None}`")
-    # early stop: a `return True` inside the loop under result == SUCCESS
+    # success only under `<data byte of the answer to OP_SIGN> == OP_SIGN_RES_SUCCESS`, and as soon as that holds
     rets = [n for n in A.own_nodes(au) if isinstance(n, ast.Return)]
-    inloop = [r for r in rets if loops and any(r is x for x in ast.walk(loops[0]))]
+    sign_send = sends[1][0] if len(sends) > 1 else None
+    okd_, DAI = try_fold(P, ast.parse("self.OFF.DATA", mode="eval").body, au, D)
+    succ = so["OP_SIGN_RES_SUCCESS"].value
+
+    def success_fact(rn):
+        for f in F.local(au, D, rn):
+            if f.kind != "cmp" or f.op != "==":
+                continue
+            for a, b in ((f.left, f.right), (f.right, f.left)):
+                okc, cv = fold_local(run, PV, au, D, b, f.node if f.node is not None else rn)
+                if not (okc and cv == succ):
+                    continue
+                call, idx = answer_field(run, PV, au, D, a, f.node if f.node is not None else rn, ignore_const_defs=True)
+                if call is sign_send and idx == [DAI]:
+                    return f
+        return None
     ok_early = False
-    for r in inloop:
-        for rn in g.nodes_of(r):
-            facts = {f.text() for f in F.local(au, D, rn)}
-            if "result == self.OP.SIGNER_AUTH.OP_SIGN_RES_SUCCESS" in facts and isinstance(r.value, ast.Constant) and r.value.value is True:
-                ok_early = True
-    run.check("R3", ok_early, "stops sending once the device reports the signer authorized", key="authorize_signer|early-stop",
-              where=au.loc(), message="authorize_signer keeps sending signatures after the device answered SUCCESS")
-    rd = PV.defs(au, D).get("result", [])
-    in_loop_def = [d for d in rd if d.value is not None and "self._send_command" in norm(d.value)]
-    run.check("R3", len(in_loop_def) == 1 and _strip(norm(in_loop_def[0].value)).endswith("[self.OFF.DATA]"),
-              "result is the answer's first data byte", key="authorize_signer|result-source", where=au.loc(),
-              message="`result` is not the first data byte of the device's answer to OP_SIGN")
-    # every True return is under result == SUCCESS; otherwise raise
     for r in rets:
         if isinstance(r.value, ast.Constant) and r.value.value is True:
             for rn in g.nodes_of(r):
-                facts = {f.text() for f in F.local(au, D, rn)}
-                run.check("R3", "result == self.OP.SIGNER_AUTH.OP_SIGN_RES_SUCCESS" in facts, "success only when the device said so",
+                sf = success_fact(rn)
+                run.check("R3", sf is not None, "success only when the device said so",
                           key=f"authorize_signer|return-True|guard", where=au.loc(r),
                           message="authorize_signer can return True although the device never answered SUCCESS (e.g. no "
                                   "signatures given, or an answer that is neither MORE nor SUCCESS)")
+                if sf is not None and loops and g.in_loop(rn) is not None and any(r is x for x in ast.walk(loops[0])):
+                    ok_early = True
         else:
             run.fail("R3", f"authorize_signer|return {norm(r.value)}", au.loc(r), f"authorize_signer returns `{norm(r.value)}`")
+    run.check("R3", ok_early, "stops sending once the device reports the signer authorized", key="authorize_signer|early-stop",
+              where=au.loc(), message="authorize_signer keeps sending signatures after the device answered SUCCESS")
     raises = [n for n in A.own_nodes(au) if isinstance(n, ast.Raise)]
     run.check("R3", len(raises) >= 1 and all("HSM2DongleError" in norm(x.exc) for x in raises), "running out of signatures raises HSM2DongleError",
               key="authorize_signer|failure", where=au.loc(), message="authorize_signer does not raise HSM2DongleError when the signatures run out")
@@ -255,9 +296,12 @@ def run(run):
               and any(k.arg == "sigencode" and norm(k.value) == "ecdsa.util.sigencode_der" for k in sg[0].keywords),
               "key path signs the authorization digest, DER", key="signapp|key-sign", where=mn.loc(),
               message="signapp's key path does not sign signer_version.get_authorization_digest() with DER encoding")
-    sk = defs_of(A, mn, "sk")
-    run.check("R4", len(sk) == 1 and norm(sk[0].value) == "ecdsa.SigningKey.from_string(bytes.fromhex(options.key), curve=ecdsa.SECP256k1)",
-              "signing key is the operator's secp256k1 key", key="signapp|key-source", where=mn.loc(), message="signapp signing key source changed")
+    skv = set()
+    for c_ in sg:
+        for cn in gm_.nodes_of(c_):
+            skv |= {_strip(x) for x in PV.expand_consistent(mn, None, c_.func.value, cn, stop=("options",))}
+    run.check("R4", skv == {_strip("ecdsa.SigningKey.from_string(bytes.fromhex(options.key), curve=ecdsa.SECP256k1)")},
+              "signing key is the operator's secp256k1 key", key="signapp|key-source", where=mn.loc(), message=f"signapp signs with {sorted(skv)[:2]}")
     vd = [c for c in find_calls(A, mn, "verify_digest")]
     run.check("R4", len(vd) == 1 and norm(vd[0].args[1]) == "signer_version.get_authorization_digest()", "eth path verifies the same digest",
               key="signapp|eth-verify", where=mn.loc(), message="signapp's eth path does not verify the dongle signature over the authorization digest")
